@@ -264,9 +264,19 @@ func visitInstr(fr *frame, instr ssa.Instruction) continuation {
 		fr.env[instr] = i.makeMap(instr.Type().Underlying().(*types.Map).Key())
 
 	case *ssa.Range:
+		if i.race != nil {
+			if m, ok := fr.get(instr.X).(*gmap); ok {
+				i.raceAccess(m, false, false, instr.Pos()) // iteration reads the map
+			}
+		}
 		fr.env[instr] = i.rangeIter(fr.get(instr.X), instr.X.Type())
 
 	case *ssa.Next:
+		if i.race != nil {
+			if it, ok := fr.get(instr.Iter).(*gmapIter); ok && it.m != nil {
+				i.raceAccess(it.m, false, false, instr.Pos())
+			}
+		}
 		fr.env[instr] = fr.get(instr.Iter).(iter).next()
 
 	case *ssa.FieldAddr:
